@@ -222,9 +222,22 @@ class Disc1D:
         return plan
 
     def interp_face(self, ci, num):
+        """the face states AS THE DISCRETISATION PRODUCES THEM: its own interp_face stage is run (it calls the
+        reconstruction object's interp_face and may post-process the result -- a clamp, a copy), and the face arrays it
+        leaves in self.pL / self.pR are returned"""
         f = self.proj.resolve(ci, "interp_face")
         if f is None:
             raise AnalysisError("%s.interp_face not found" % ci.qualname)
+        stage = self.proj.resolve(self.so.cls, "interp_face")
+        if stage is not None:
+            self.so.attrs["num"] = num
+            self.so.attrs.setdefault("grad", "none")
+            self.so.attrs.pop("pL", None)
+            self.so.attrs.pop("pR", None)
+            self.interp.call_function(stage, [self.so])
+            if "pL" in self.so.attrs and "pR" in self.so.attrs:
+                return self.so.attrs["pL"], self.so.attrs["pR"]
+            raise AnalysisError("%s does not leave the face states in self.pL / self.pR" % stage.qualname)
         grad = self.so.attrs.get("grad", "none")
         return self.interp.call_function(f, [num, self.mesh, self.so.attrs["pdata"], grad])
 
